@@ -205,6 +205,13 @@ Proof.
     destruct body; reflexivity.
 Qed.
 
+(** Only the FIRST WriteHeader counts for the buffered writer: an informational
+    header followed by the final one leaves the informational status in place. *)
+Lemma resp_mw_two_headers maxm maxb s1 s2 body :
+  fst (resp_mw maxm maxb [HWriteHeader s1 false; HWriteHeader s2 false; HWrite body]) =
+  fst (resp_mw maxm maxb [HWriteHeader s1 false; HWrite body]).
+Proof. reflexivity. Qed.
+
 (** Calls reaching the logging writer for a complete response of the target. *)
 Lemma serve_respond_ops c s body :
   flat_map wev_op (o_events (serve c (TBRespond s body))) =
@@ -229,6 +236,7 @@ Definition ending_status (c : chain_cfg) (e : ending) : N :=
     if c_buffer_resp c && body_too_large (c_max_resp c) body then 500 else s
   | EProxied _ (TBFailBefore f) => classify f
   | EProxied _ (TBFailAfter s _ _) => if c_buffer_resp c then 200 else s
+  | EProxiedHints _ s _ => s
   | EReqTooLarge _ => 413 | EReqReadError _ => 500 | EUpgraded _ => 101
   end.
 
@@ -246,24 +254,26 @@ Lemma chain_ctx svc c rl e :
 Proof. destruct e; cbn; split; reflexivity. Qed.
 
 Lemma chain_header_lists svc c rl t e :
-  (e = EReqTooLarge t \/ e = EReqReadError t \/ e = EUpgraded t \/ exists b, e = EProxied t b) ->
+  (e = EReqTooLarge t \/ e = EReqReadError t \/ e = EUpgraded t \/ (exists b, e = EProxied t b) \/
+   (exists s body, e = EProxiedHints t s body)) ->
   let '(ctx, _, _) := chain svc c rl e in
   lc_req_headers ctx = canonicalize_names (ti_log_req t) /\
   lc_resp_headers ctx = canonicalize_names (ti_log_resp t).
 Proof.
-  intros [->|[->|[->|[b ->]]]]; cbn; split; reflexivity.
+  intros [->|[->|[->|[[b ->]|(s & body & ->)]]]]; cbn; split; reflexivity.
 Qed.
 
 Lemma chain_status svc c rl e :
   (forall t s body, e = EProxied t (TBRespond s body) -> final_status s) ->
   (forall t s sent f, e = EProxied t (TBFailAfter s sent f) -> final_status s) ->
+  (forall t s body, e = EProxiedHints t s body -> final_status s /\ c_buffer_resp c = false) ->
   let '(_, ops, _) := chain svc c rl e in
   lw_status (lw_run ops) = ending_status c e /\
   (* unless the handler was aborted before anything was passed on, this is what the client is told *)
   ((forall t s sent f, e <> EProxied t (TBFailAfter s sent f)) -> client_status ops = ending_status c e).
 Proof.
-  intros Hs Ha.
-  destruct e as [ | | | | | | | t b | t | t | t ]; cbn [chain ending_status].
+  intros Hs Ha Hh.
+  destruct e as [ | | | | | | | t b | t s0 body0 | t | t | t ]; cbn [chain ending_status].
   - destruct (error_page_ops_status None (c_builtin c) 404 eq_refl) as (H1 & H2 & _). auto.
   - destruct (rl =? 0); cbn; auto.
   - destruct (error_page_ops_status (c_custom c) (c_builtin c) 503 eq_refl) as (H1 & H2 & _). auto.
@@ -287,16 +297,32 @@ Proof.
       rewrite serve_fail_after. cbn [o_events].
       split; [|intros Hne; exfalso; exact (Hne t s sent f eq_refl)].
       destruct (c_buffer_resp c); reflexivity.
+  - destruct (Hh t s0 body0 eq_refl) as [Hf Hb]. unfold final_status in Hf. rewrite Hb.
+    cbn [flat_map hop_wev wev_op app client_status]. cbn [informational]. rewrite Hf.
+    rewrite lw_run_status. cbn. auto.
   - cbn. auto.
   - cbn. auto.
   - cbn. auto.
+Qed.
+
+(** With response buffering the final status of a response preceded by an
+    informational one is lost: the record says 103, the client is told 200
+    (net/http's implicit header before the first body byte) — whatever the
+    target's status was. *)
+Lemma buffered_hints svc c rl t s body :
+  c_buffer_resp c = true -> body_too_large (c_max_resp c) body = false -> body <> [] ->
+  let '(_, ops, _) := chain svc c rl (EProxiedHints t s body) in
+  lw_status (lw_run ops) = 103 /\ client_status ops = 200.
+Proof.
+  intros Hb Hl Hne. cbn [chain]. rewrite Hb, resp_mw_two_headers, resp_mw_one, Hl.
+  destruct body as [|x body]; [congruence|]. cbn. auto.
 Qed.
 
 Lemma chain_panic_iff svc c rl e :
   let '(_, _, en) := chain svc c rl e in
   en = HPanic <-> exists t s sent f, e = EProxied t (TBFailAfter s sent f).
 Proof.
-  destruct e as [ | | | | | | | t b | t | t | t ]; cbn [chain];
+  destruct e as [ | | | | | | | t b | t s0 body0 | t | t | t ]; cbn [chain];
     try (split; [discriminate|intros (t' & s & sent & f & H); discriminate]).
   destruct b as [s body | f | s sent f].
   - unfold serve, reverse_proxy. cbn [panics o_aborted].
